@@ -301,6 +301,13 @@ def run(ctx):
                 ctx.ob("C05.9", f"{Q}.cell_to_children(WORLD_CELL, {r}) enumerates get_num_cells({r}) ids",
                        core.DISCHARGED if got == want else core.VIOLATED, wloc,
                        f"enumeration has {got} entries (loop trip counts {[[c for _, c in sg.binders] for sg in elems]}), get_num_cells({r}) = {want}")
+                # ... and every enumerated id is the id of a cell (it decodes, and to a face of the table)
+                from .rules_C06 import decode_defects
+                for sg in elems:
+                    if isinstance(sg.elem, Lin):
+                        for why in decode_defects(su.interp, sg.elem, su.n):
+                            ctx.bad("C05.9", f"{Q}.cell_to_children(WORLD_CELL, {r}) lists a value that is not the id of a cell", wloc,
+                                    f"element {sg.elem}: {why}")
             elif raises and not rets:
                 ctx.bad("C05.9", f"{Q}.cell_to_children(WORLD_CELL, {r}) raises", wloc, "the ids of a resolution cannot be enumerated")
             else:
